@@ -443,14 +443,19 @@ class Spectrum(object):
     def _setData(self, data):
         if self.__data is not None:
             # nothing to do if the samples are unchanged (like the other setters)
+            # The getter hands out the stored array, which may have been
+            # edited in place (e.g. p.data *= 2): compare with the samples
+            # as they were assigned as well.
             new = numpy.asarray(data)
-            if new.dtype == self.__data.dtype and numpy.array_equal(new, self.__data):
+            if new.dtype == self.__data.dtype and numpy.array_equal(new, self.__data) \
+                    and numpy.array_equal(new, self.__data_assigned):
                 return
         if type(data) == list:
             from numpy import array
             self.__data = array(data)
         else:
             self.__data = data.copy()
+        self.__data_assigned = self.__data.copy()
         self.__N = self.data.size # N has no setter, so we use the private version
         self.modified = True
 
